@@ -1,5 +1,7 @@
 """C02 - scalar operator semantics (Engine B arithmetic on IEEE doubles, Engine A comparisons / & / ^)."""
 import os
+import sys
+sys.path.insert(0, "/verif/harness")
 from vlib.core import Check, ROOT
 from vlib.symrun import run_tasks
 from vlib.xh import Harness, Batch
@@ -41,8 +43,13 @@ def run(tier, seed):
     quick = tier == 'quick'
     T = [dict(name='public_wrapper_vs_kernel', module='c02_sym', func='public_vs_kernel', timeout=600,
               bounds='15 operators x 22 x 22 concrete pool operands', engine='translator validation (concrete)')]
-    for op in ('+', '-', '*', '/', '%', 'U-', 'U+'):
-        T.append(dict(name='arith_%s' % op, module='c02_sym', func='arith', args={'op': op}, timeout=1500,
+    import c02_pool
+    names = list(c02_pool.POOL)
+    jobs = [(op, None, True) for op in ('+', '-', '*', '%', 'U-', 'U+')]
+    jobs += [('/', names[:8], False), ('/', names[8:15], False), ('/', names[15:], False), ('/', [], True)]
+    for op, kinds, both in jobs:
+        T.append(dict(name='arith_%s%s' % (op, '' if kinds is None else '_' + (kinds[0] if kinds else 'symsym')), module='c02_sym', func='arith',
+                      args={'op': op, 'kinds': kinds, 'both_symbolic': both}, timeout=1500,
                       bounds='x (and y) any finite double, partner from the 22-kind pool, both positions; plus 64 concrete kind pairs',
                       engine='symtrace z3 QF_FP', replay=lambda cex: REPLAY % cex))
     run_tasks(ck, T)
@@ -51,7 +58,7 @@ def run(tier, seed):
     hs, batch = [], Batch()
     try:
         h = Harness(ck, 'c02_cmp', src); hs.append(h)
-        batch.add(h, 170 if quick else 900, only=['cmp_total_ok', 'cmp_blank_ok', 'cmp_error_ok', 'concat_ok', 'concat_str_ok'])
+        batch.add(h, 170 if quick else 900, only=['cmp_total_nn_ok', 'cmp_total_nb_ok', 'cmp_total_ns_ok', 'cmp_total_ss_ok', 'cmp_total_s1_ok', 'cmp_blank_ok', 'cmp_error_ok', 'concat_ok', 'concat_str_ok'])
         for a in range(22):
             bits = ', '.join('a%d == %s' % (i, bool(a >> i & 1)) for i in range(5))
             s = src.replace('pre: sel(a0, a1, a2, a3, a4) < len(POW) and', 'pre: %s\n    pre:' % bits.replace(', ', ' and '))
